@@ -27,6 +27,7 @@ EXHAUSTIVE_NOTE = ("exhaustive over (N, batchsize) and (N, num_batches) for N <=
                    "shape per N; shuffle/constants/case forms are sampled")
 SHARDS = {"quick": 4, "thorough": 16}
 MIN_REACH = {
+    "crops_sown_anew_whose_settings_file_kept_its_size_and_time_stamp": {"quick": 3, "thorough": 10},
     "batch_files_read": {"quick": 2500, "thorough": 30000},
     "contract_evals_choose_batch_settings": {"quick": 300, "thorough": 3000},
     "crops_given_a_size_and_a_count_that_agree": {"quick": 20, "thorough": 60},
@@ -150,6 +151,11 @@ def cases(ctx):
         elif r < 0.9:
             c["num_batches"] = rng.randint(1, n + 2)
         yield c
+
+    # a crop deleted and sown ANEW (another grid / another batching, a settings file of the same size and time stamp) while a
+    # long-lived Crop object that had looked at the earlier crop is still in use
+    for k in range(ctx.pick(4, 12)):
+        yield {"stale_settings": ["grid", "batching"][k % 2], "k": k}
 
 
 def _direct_run_extras(farmer, expect):
@@ -319,6 +325,22 @@ def run_resow(ctx, case):
 
 
 def run_case(ctx, case):
+    if case.get("stale_settings"):
+        import xyzpy as _x
+        tmp_ = ctx.mkdtemp("stale")
+        try:
+            with quiet():
+                probs_, same_size_ = cropkit.stale_settings_scenario(_x, tmp_, case["stale_settings"], farmer=case['k'] % 2 == 1)
+        except Exception as e_:
+            probs_, same_size_ = ["the scenario raised %r" % (e_,)], False
+        ctx.count("crops_sown_anew_behind_a_long_lived_crop_object")
+        if same_size_:
+            ctx.count("crops_sown_anew_whose_settings_file_kept_its_size_and_time_stamp")
+        for m_ in probs_[:2]:
+            ctx.violation(case, m_, {"api": "long-lived Crop", "oracle": "looks-at-the-crop-that-is-there", "variant": case["stale_settings"]})
+        ctx.observe(case, key=("stale", case["stale_settings"], case["k"]))
+        ctx.rmtree(tmp_)
+        return
     import xyzpy
     if case.get("resow"):
         return run_resow(ctx, case)
